@@ -321,7 +321,8 @@ fn scenario(seed: u64, rep: &Report, dedicated: bool) -> Result<(), String> {
                         let ids = crate::wire::row_idents(&r);
                         let want_q = crate::sql::directive(&t.sql).get("q").cloned().unwrap_or_default();
                         let ok = crate::wire::first_error(&r).is_none() && ids.len() == 1 && ids[0].2 == want_q;
-                        recs.push(ExecRec { op: if close_at_end { "parse_bind_execute_close_in_one_batch".into() } else { "parse_bind_execute".into() }, client: cid.clone(), portal, expect_sql: t.sql.clone(), expect_types: t.types.clone(), name: name.clone(), reply: summarize(&r), ok });
+                        // (one operation class for the signatures, with or without the trailing Close)
+                        recs.push(ExecRec { op: "parse_bind_execute".into(), client: cid.clone(), portal, expect_sql: t.sql.clone(), expect_types: t.types.clone(), name: name.clone(), reply: summarize(&r), ok });
                         if close_at_end {
                             model.remove(&name);
                         } else {
